@@ -163,6 +163,11 @@ def run(repo, rep, tier):
         # ---------------- R4.6
         for n in walk_local_stmt(rm.f.node):
             if isinstance(n, ast.Call):
+                # JSON-keyed dicts handed over as ordinary arguments (the safe way) are counted as discharged instances
+                for arg in list(n.args) + [kw.value for kw in n.keywords if kw.arg is not None]:
+                    if isinstance(arg, (ast.Name, ast.DictComp)) and _dict_keyed_by_json(rm, arg):
+                        r6.ob(True, f"{c.name}.fromJsonFragment: JSON-keyed dict `{ast.unparse(arg)}` passed as an ordinary argument "
+                                    f"to {ast.unparse(n.func)}")
                 for kw in n.keywords:
                     if kw.arg is None:
                         kps = rm.K(kw.value, rm.env)
